@@ -25,6 +25,7 @@ FAMILIES = {
     'context': 'pvf.contracts.context',
     'config': 'pvf.contracts.config',
     'registry': 'pvf.contracts.registry',
+    'render': 'pvf.contracts.render',
 }
 
 
